@@ -11,7 +11,8 @@ from props import producer_check as PC
 
 THEOREMS = ["C19_dispatch_iff", "C19_no_due_batch_waits", "C19_deferred_threshold", "C19_no_starvation", "C19_queue_exit",
             "C19_counters_exact", "C19_cancel_before_dispatch", "C19_cancelled_never_sent", "C19_cancel_after",
-            "C19_stop", "C19_stop_cancellation", "C19_nothing_after_stop"]
+            "C19_stop", "C19_stop_cancellation", "C19_send_refused_when_stopping", "C19_stop_gives_stopped",
+            "C19_nothing_after_stop"]
 ACTIVITY = (1, 2, 4, 5, 6)     # produce, callLater, reset metadata, load metadata, version lookup
 
 
@@ -67,6 +68,11 @@ def monitor(run):
             # C19_nothing_after_stop
             if any(o[0] in ACTIVITY for o in outs) or after["busy"]:
                 bad.append((i, "after-stop: activity after stop(): %r" % (outs,)))
+        if op == 1 and stopped:
+            # C19_send_refused_when_stopping
+            sid = run.send_ev[i]
+            if outs != [[7, sid, 0, L.K_CANCEL, 0, 0, 0]] or sid in after["unresolved"]:
+                bad.append((i, "refused: send_messages on a stopped producer produced %r, expected an immediate CancelledError(request_sent=False)" % (outs,)))
         if op == 1 and not stopped:
             cnt, byt = mev[3], mev[4]
             if not idle_b:
